@@ -160,6 +160,26 @@ def fixed_scenarios():
                 {"op": "sts_set", "ns": "ns1", "name": "web", "replicas": 3}, put(T), inf(T), flt(T, ["node2"]), bnd(T, "node2"), inf(T), phase(T, 1),
                 inf(T), again, {"op": "resync", "ip": "@a0"}, put(U), inf(U), flt(U, ["node2"]), bnd(U, "node2"), inf(U), put(V), inf(V),
                 flt(V, ["node2"]), bnd(V, "node2"), inf(V), {"op": "resync", "ip": "@a0"}, {"op": "resync", "ip": "@a1"}]}))
+    # a pool annotation that contains '_' (K4: such a key does not parse back to its pod - resync passes it by): the pod keeps
+    # its IP through resync passes for as long as it lives, and the next pods are given other IPs
+    for pol in (0, 2):
+        W = mkpod("api-7f9c6d-w1", "uW%d" % pol, "dp", "api", pol, pool="team_a")
+        X, Y = mkpod("web-1", "uX%d" % pol), mkpod("web-2", "uY%d" % pol)
+        hs.append(("pool-name-with-underscore-p%d" % pol, {"provider": False, "nodes": NODES, "conf": conf_text([PA1, PA2]), "ops": [
+            {"op": "sts_set", "ns": "ns1", "name": "web", "replicas": 3}, {"op": "dp_set", "ns": "ns1", "name": "api", "replicas": 2},
+            put(W), inf(W), flt(W, ["node1"]), bnd(W, "node1"), inf(W), phase(W, 1), inf(W),
+            {"op": "resync", "ip": "@a0"}, {"op": "resync_fetch"}, {"op": "resync_item", "ip": "@a0"},
+            put(X), inf(X), flt(X, ["node1"]), bnd(X, "node1"), inf(X), put(Y), inf(Y), flt(Y, ["node1"]), bnd(Y, "node1"), inf(Y),
+            {"op": "resync", "ip": "@a0"}, {"op": "resync", "ip": "@a1"}]}))
+    # the first attempt of a release event fails (the provider's UnAssignIP) and the event loop queues it again; meanwhile the
+    # pod's replacement of the same name is known to the informer, a resync pass deals with the old IP and the replacement is
+    # bound; then the retried event is handled: it is still the OLD pod's event
+    for policy in (0, 2):
+        A2, B2 = mkpod("web-0", "uA", policy=policy), mkpod("web-0", "uB", policy=policy)
+        hs.append(("retried-event-after-replacement-p%d" % policy, {"provider": True, "nodes": NODES, "conf": conf_text([POOL_A]), "ops": base + [
+            put(A2), inf(A2), flt(A2, ["node1"]), bnd(A2), inf(A2), phase(A2, 1), inf(A2), dele(A2), put(B2), inf(B2),
+            dict({"op": "event_loop", "n": 0}, fcloud=0), {"op": "resync", "ip": "@a0"}, flt(B2, ["node2"]), bnd(B2, "node2"), inf(B2),
+            phase(B2, 1), inf(B2), {"op": "event", "n": 0}, {"op": "event", "n": 0}, {"op": "resync", "ip": "@a0"}]}))
     # F1: late delete event of A after B is bound (same ranges / no ranges), all policies, with provider
     for policy in (0, 1, 2):
         A1, B1 = mkpod("web-0", "uA", policy=policy), mkpod("web-0", "uB", policy=policy)
@@ -897,6 +917,21 @@ def policy_scenarios(rng, ctx, n):
                   [{"op": "sync_pod", "ns": p["Ns"], "name": p["Name"]} for p in pods]
         hs.append(("policy:%d" % i, {"provider": rng.random() < 0.25, "nodes": NODES, "conf": conf, "ops": ops + quiesce, "_quiesce_from": len(ops)}))
         ctx.dist("scenario:policy")
+    # the release events of TWO pods of one immutable deployment handled at the same time: the app holds `held` IPs, has `repl`
+    # replicas; the first handler is stopped after it has counted the app's IPs and decided.  Counting, deciding and giving the
+    # IPs back are one section under the app's mutex: handled in a row, exactly max(0, held - repl) of the IPs are released
+    for held in (2, 3):
+        for repl in (1, 2, 3):
+            ps = [mkpod("api-7f9c6d-e%d" % j, "e%d%d%d" % (held, repl, j), "dp", "api", 1) for j in range(held)]
+            ops = [{"op": "dp_set", "ns": "ns1", "name": "api", "replicas": 3}]
+            for p in ps:
+                ops += [put(p), inf(p), flt(p), bnd(p, "node1"), inf(p), phase(p, 1), inf(p)]
+            ops += [{"op": "dp_set", "ns": "ns1", "name": "api", "replicas": repl}]
+            for p in ps[:2]:
+                ops += [dele(p), inf(p)]
+            ops += [{"op": "event_race"}]
+            hs.append(("two-events-of-one-immutable-deployment:%d:%d" % (held, repl), {"provider": False, "nodes": NODES, "conf": conf, "ops": ops}))
+            ctx.dist("scenario:two-events-race")
     # workloads of the same kind and name in TWO namespaces (prod/web, staging/web), immutable policy; the pods of both are gone and
     # their events were lost; one of the workloads is deleted / scaled to zero; ONE resync pass meets both (either order): each IP is
     # judged by its own namespace's workload
@@ -940,7 +975,7 @@ def mon_c03(h, o, nwf, keys):
             sts[(op["ns"], op["name"])] = op.get("replicas")
         if k == "dp_set":
             dps[(op["ns"], op["name"])] = op.get("replicas")
-        if prev is not None and k in ("event", "resync", "resync_item") and st.get("res") == "ok":
+        if prev is not None and k in ("event", "event_loop", "event_race", "resync", "resync_item") and st.get("res") == "ok":
             after = {e[0]: e for e in d["alloc"]}
             ev_uid = (st.get("event_pod") or [None, None, None])[2]
             for e in prev["alloc"]:
@@ -950,8 +985,8 @@ def mon_c03(h, o, nwf, keys):
                 # the policy in force is the one the pod was created with (the scenario and random generators keep it fixed per
                 # key); the STORED policy is what the code consults on resync - a release licensed only by a corrupted stored
                 # policy is a violation
-                pol = eff_policy(byuid[ev_uid]) if (k == "event" and ev_uid in byuid) else eff_policy(sp)
-                if k == "event" and (ev_uid not in byuid or pod_key(byuid[ev_uid]) != e[1]):
+                pol = eff_policy(byuid[ev_uid]) if (k in ("event", "event_loop") and ev_uid in byuid) else eff_policy(sp)
+                if k in ("event", "event_loop") and (ev_uid not in byuid or pod_key(byuid[ev_uid]) != e[1]):
                     continue
                 if k in ("resync", "resync_item") and ipamgen.s2ip(st.get("ip", "0.0.0.0")) != e[0] and not any(
                         x[0] == ipamgen.s2ip(st.get("ip", "0.0.0.0")) and x[1] == e[1] for x in prev["alloc"]):
@@ -980,6 +1015,17 @@ def mon_c03(h, o, nwf, keys):
                 r = dps.get((spd["Ns"], spd["App"]))
                 if mine and r is not None and holds > r and len([e for e in prev["alloc"] if e[1] == key]) == len(mine):
                     out.append((lit(all(e[0] not in after for e in mine)), si, "immutable_dp_over_replicas_releases", []))
+            if k == "event_race" and ev_uid in byuid and byuid[ev_uid]["Kind"] == "dp" and eff_policy(byuid[ev_uid]) == 1 and \
+                    not byuid[ev_uid].get("Pool") and not st.get("err_a") and not st.get("err_b"):
+                # two events of pods of one immutable deployment, handled at the same time: together they release exactly the
+                # IPs the app holds beyond its replicas (at most the two pods' own) - never more
+                spd = byuid[ev_uid]
+                pfx = "dp_%s_%s_" % (spd["Ns"], spd["App"])
+                before = len([e for e in prev["alloc"] if e[1].startswith(pfx)])
+                now = len([e for e in d["alloc"] if e[1].startswith(pfx)])
+                r = dps.get((spd["Ns"], spd["App"]))
+                if r is not None and r > 0:
+                    out.append((lit(now == before - min(2, max(0, before - r))), si, "immutable_dp_concurrent_events_release_the_surplus", []))
             if k == "event" and ev_uid in byuid and eff_policy(byuid[ev_uid]) == 0:
                 key = pod_key(byuid[ev_uid])
                 mine = [e for e in prev["alloc"] if e[1] == key]
@@ -1078,7 +1124,7 @@ def routing_scenarios(rng, ctx, n):
             # ... and what the pools tell about their node subnets is what the configuration says, also afterwards: fresh pods
             # of another app are offered every node and bound on any node Filter approved, until pools run dry
             for j in range(rng.choice([3, 5])):
-                q = mkpod("late-%d" % j, "l%d_%d" % (i, j), "sts", "late", 0)
+                q = mkpod("fresh-%d" % j, "f%d_%d" % (i, j), "sts", "fresh", 0)
                 ops += [put(q), inf(q), flt(q, sorted(NODES)), bnd(q, "@approved:%d" % rng.randrange(6))]
             ctx.dist("scenario:routing-reserves-in-several-pools")
         if rng.random() < 0.35:
@@ -1087,6 +1133,10 @@ def routing_scenarios(rng, ctx, n):
             pools2 = json.loads(json.dumps(pools))
             for p_ in pools2:
                 p_["nodeSubnets"] = [sn.replace(".0.0/24", rng.choice([".0.0/25", ".0.128/25"])) for sn in p_["nodeSubnets"]]
+            if rng.random() < 0.5:
+                # the poll that first sees the new text fails at its List call; the next poll applies it (nothing is remembered
+                # of a text that was not applied)
+                ops.append(dict({"op": "reload", "conf": conf_text(pools2)}, fstore=0))
             ops.append({"op": "reload", "conf": conf_text(pools2)})
             for j in range(rng.choice([1, 2, 3])):
                 p = mkpod("late-%d" % j, "l%d_%d" % (i, j), "bare", "", 0, [])
